@@ -13,7 +13,7 @@ THEOREMS = [
     "utf16_roundtrip", "utf16_roundtrip_converse", "externalize_invalid_byte", "internalize_lone_low", "internalize_lone_high_end",
     "internalize_high_then_any", "roundtrip_scalar", "roundtrip", "roundtrip_negzero", "roundtrip_nilmap", "roundtrip64_exact",
     "roundtrip64_beyond", "mk64_exact", "documented_table_ext", "documented_table_back", "wrapper_stable", "wrapper_injective",
-    "wrapper_call_spec", "tag_key_spec", "tag_key_byte_escaped_denotes_bytes", "tag_key_byte_escaped_counterexample", "callback_guard", "callback_guard_raised", "cur_reset_after_every_activation", "callback_block_rejected", "scheduler_never_calls_noGoroutine", "callback_guard_witness", "callback_guard_old_counterexample",
+    "wrapper_call_spec", "sliceToNative_window", "slice_invariant", "sliceToNative_fastpath_counterexample", "tag_key_spec", "tag_key_byte_escaped_denotes_bytes", "tag_key_byte_escaped_counterexample", "callback_guard", "callback_guard_raised", "cur_reset_after_every_activation", "callback_block_rejected", "scheduler_never_calls_noGoroutine", "callback_guard_witness", "callback_guard_old_counterexample",
 ]
 
 INT_KINDS = {"Ti": (-2 ** 31, 2 ** 31 - 1), "Ti8": (-128, 127), "Ti16": (-2 ** 15, 2 ** 15 - 1), "Ti32": (-2 ** 31, 2 ** 31 - 1),
@@ -600,6 +600,65 @@ def gen_guard_ops(g, tier):
 
 # ---------------------------------------------------------------------------------------------------------------
 
+SLICE_ELEMS = {
+    "Ti8": lambda i: "n%d" % (i - 3), "Ti16": lambda i: "n%d" % (1000 * i - 2000), "Ti32": lambda i: "n%d" % (100000 * i - 7), "Ti": lambda i: "n%d" % (i * 65537),
+    "Tu8": lambda i: "n%d" % (247 + i), "Tu16": lambda i: "n%d" % (65527 + i), "Tu32": lambda i: "n%d" % (4294967287 + i), "Tu": lambda i: "n%d" % (i + 1),
+    "Tup": lambda i: "n%d" % (7 * i), "Tf32": lambda i: ["n1", "nz", "nan", "q511_2_0", "pinf", "n-3"][i % 6], "Tf64": lambda i: ["nz", "q5_1_0", "nan", "n9007199254740992", "ninf", "n0"][i % 6],
+    "Tb": lambda i: "tf"[i % 2], "Ts": lambda i: "s" + hexs(list(("e%dé" % i).encode())), "TI64": lambda i: "L%d_%d" % (i - 2, 4294967295 - i), "TU64": lambda i: "L%d_%d" % (i, i),
+    "TS(Ti8)": lambda i: "sl(%s)" % ",".join("n%d" % k for k in range(i)) if i else "nil",
+}
+
+
+def gen_slice_ops(g, tier):
+    """slices as (backing array length L, offset, len, cap): built by `new T(array)` and `$subslice(s, lo, hi, max)` of the real
+    prelude; EVERY (L, lo, hi, max) with 0 <= lo <= hi <= max <= L <= 6 for every element kind, plus chains of two and three
+    sub-slicings (which give offset > 0 with every len/cap combination) and a few out-of-range ones."""
+    rng = g.rng
+    ops = []
+    for t, val in SLICE_ELEMS.items():
+        for L in range(0, 7):
+            backing = "ar(%s)" % ",".join(val(i) for i in range(L))
+            for lo in range(0, L + 1):
+                for hi in range(lo, L + 1):
+                    for mx in range(hi, L + 1):
+                        ops.append("jsconv slice %s %s %d:%d:%d" % (t, backing, lo, hi, mx))
+    kinds = list(SLICE_ELEMS)
+    for _ in range(6000 if tier == "thorough" else 1200):
+        t = rng.choice(kinds)
+        L = rng.randrange(0, 9)
+        backing = "ar(%s)" % ",".join(SLICE_ELEMS[t](i) for i in range(L))
+        chain = []
+        cap = L
+        for _ in range(rng.choice([2, 2, 3])):
+            if rng.random() < 0.06:
+                chain.append("%d:%d:%d" % (rng.randrange(0, 4), rng.randrange(0, 9), rng.randrange(0, 10)))   # possibly out of range
+                break
+            lo = rng.randrange(0, cap + 1)
+            hi = rng.randrange(lo, cap + 1)
+            mx = rng.choice([hi, hi, cap, rng.randrange(hi, cap + 1)])
+            chain.append("%d:%d:%d" % (lo, hi, mx))
+            cap = mx - lo
+        ops.append("jsconv slice %s %s %s" % (t, backing, "/".join(chain)))
+    return ops
+
+
+def slice_kind(op, ans):
+    p = op.split()
+    if ans.startswith("panic"):
+        return "slice:bounds-panic"
+    first = p[4].split("/")
+    lo, hi, mx = map(int, first[-1].split(":"))
+    L = 0 if p[3] == "ar()" else p[3].count(",") + 1
+    k = "slice:" + ("typed" if p[2] in TA_OF else "array")
+    if len(first) == 1 and lo == 0 and hi == mx and hi < L:
+        k += ":offset0-len=cap<backing"
+    elif len(first) == 1 and lo == 0 and hi == L:
+        k += ":whole"
+    elif hi == lo:
+        k += ":empty"
+    return k
+
+
 def gen_hist_ops(g, tier):
     """histories of JavaScript-side events over the real $go / $goroutine / $runScheduled: goroutines started from callbacks
     (scripts of sends, receives, selects, returns and unrecovered panics), channel operations in callbacks, timers."""
@@ -772,6 +831,12 @@ def run(tier, seed):
     gmodel = C.run_driver("C11", gops)
     # callback_guard is proved at full strength for the model, so the model is the specification
     chk.compare("prelude-callback-guard", gops, C.run_node(gops), gmodel, kind=kind_of)
+
+    # ---------------- slices as windows of their backing array ----------------
+    slops = gen_slice_ops(g, tier)
+    chk.extra["exhaustive_subspace"] = ("every slice (backing length L <= 6, lo <= hi <= max <= L) x %d element kinds through $subslice, "
+                                        "$sliceToNativeArray, $externalize and back" % len(SLICE_ELEMS))
+    chk.compare("prelude-slice-window", slops, C.run_node(slops), C.run_driver("C11", slops), kind=slice_kind)
 
     # ---------------- histories over the real scheduler: $curGoroutine === $noGoroutine after every event ----------------
     hops = gen_hist_ops(g, tier)
@@ -1438,6 +1503,34 @@ def tag_results(chk, j, v, obs, kind, info):
     chk.compare(tie, ops, lines, exp, kind=lambda o, a, kind=kind: "program:" + kind + ":" + o.split(" ")[1].split("=")[0])
 
 
+SLICE3_KINDS = [("uint8", "Tu8"), ("int16", "Ti16"), ("int32", "Ti32"), ("uint", "Tu"), ("float64", "Tf64"), ("float32", "Tf32"), ("string", "Ts"), ("int64", "TI64"), ("bool", "Tb")]
+
+
+def prog_slice3(rng, ncases):
+    """three-index slice expressions of slices and of arrays handed to a JavaScript probe, and read back through Interface()"""
+    decl, body, ops = [], [], []
+    for k, (gt, t) in enumerate(SLICE3_KINDS):
+        L = 5
+        vals = [SLICE_ELEMS[t](i) for i in range(L)]
+        lits = ", ".join(go_lit((t, []), parse_sx(v)) for v in vals)
+        decl.append("\ts%d := []%s{%s}" % (k, gt, lits))
+        decl.append("\ta%d := [%d]%s{%s}" % (k, L, gt, lits))
+        triples = [(0, 2, 2), (0, 0, 0), (0, 5, 5), (1, 3, 3), (0, 3, 5), (2, 2, 4)]
+        while len(triples) < ncases:
+            lo = rng.randrange(0, L + 1)
+            hi = rng.randrange(lo, L + 1)
+            triples.append((lo, hi, rng.randrange(hi, L + 1)))
+        for (lo, hi, mx) in triples:
+            for src in ("s", "a"):
+                body.append("\tprintln(probe.Invoke(%s%d[%d:%d:%d]).String())" % (src, k, lo, hi, mx))
+                ops.append(("ext", "jsconv slice %s ar(%s) %d:%d:%d" % (t, ",".join(vals), lo, hi, mx)))
+                body.append("\tprintln(show(ident.Invoke(%s%d[%d:%d:%d]).Interface()))" % (src, k, lo, hi, mx))
+                ops.append(("back", "jsconv slice %s ar(%s) %d:%d:%d" % (t, ",".join(vals), lo, hi, mx)))
+    src = (PROG_HEAD + "\nfunc main() {\n\t_ = zero\n\tprobe := js.Global.Call(\"eval\", %s)\n\tident := js.Global.Call(\"eval\", \"(function(x){return x})\")\n" % go_str(JS_SHOW.encode())
+           + "\n".join(decl) + "\n" + "\n".join(body) + "\n}\n")
+    return src, ops
+
+
 HISTORY_PROG = """package main
 
 import "github.com/gopherjs/gopherjs/js"
@@ -1522,6 +1615,9 @@ def program_tie(chk, tier, g):
     meta.append(("guard", "recv"))
     jobs.append({"id": "guard-select", "files": {"main.go": GUARD_PROG % GUARD_SELECT}, "variants": ["plain"], "native": False, "timeout": 300})
     meta.append(("guard", "select"))
+    s3src, s3ops = prog_slice3(rng, 10 if tier == "thorough" else 8)
+    jobs.append({"id": "slice3", "files": {"main.go": s3src}, "variants": ["plain", "minify"], "native": False, "timeout": 300})
+    meta.append(("slice3", s3ops))
     jobs.append({"id": "guard-history", "files": {"main.go": HISTORY_PROG}, "variants": ["plain", "minify"], "native": False, "timeout": 300})
     meta.append(("history", HISTORY_EXPECT))
     tj, tm = tag_jobs(chk, tier)
@@ -1540,6 +1636,17 @@ def program_tie(chk, tier, g):
             if obs[1] == "timeout":
                 raise RuntimeError("program %s timed out twice (loaded machine?)" % j["id"])
             tie = "program-%s:%s" % (kind, v)
+            if kind == "slice3":
+                m1 = C.run_driver("C11", [o for _, o in info])
+                exts = [a.split(" ")[0][4:] for a in m1]
+                m2 = C.run_driver("C11", ["jsconv int TE %s" % e for e in exts])
+                exp = [e if w == "ext" else b for (w, _), e, b in zip(info, exts, m2)]
+                ops = ["slice3 %s %s" % (w, o.split(" ", 2)[2]) for w, o in info]
+                lines = (obs[0] + ["<missing>"] * len(exp))[:len(exp)]
+                chk.compare(tie, ops, lines, exp, kind=lambda o, a: "program:slice3:" + o.split(" ")[1])
+                if obs[1] != "exit0":
+                    chk.add_mismatch(tie, "slice3 ending", impl=obs[1], spec="exit0")
+                continue
             if kind == "history":
                 exp = info
                 ops = ["guard-history line %d %s" % (i, e.split(":")[0]) for i, e in enumerate(exp)]
